@@ -324,6 +324,8 @@ def _g_counts(tier):
 
 
 MUTANTS = [
+    dict(name="original F-C11: only the temporary merge plugin counts as target", file="strax/context.py",
+         old="                requested_targets.update(plugins[target_i].depends_on)", new="                pass"),
     dict(name="TARGET policy treated as ALWAYS", file="strax/context.py",
          old="            if target not in targets:\n                return False", new="            pass"),
     dict(name="EXPLICIT policy ignored", file="strax/context.py",
